@@ -2,7 +2,7 @@ from props.common import add_obs, ASSUME_BOUNDED, verify_keys
 from pv import bounded as B
 from pv import obs_effects as E
 
-NAMES = ['bnd:C17.corrupt_is_miss', 'bnd:C17.repair', 'bnd:C17.fault_is_miss', 'bnd:C17.cleanup_spares_active']
+NAMES = ['bnd:C17.corrupt_is_miss', 'bnd:C17.repair', 'bnd:C17.fault_is_miss', 'bnd:C17.cleanup_spares_active', 'bnd:C17.two_processes']
 
 
 def _raises():
@@ -27,7 +27,7 @@ def run(report):
                   "enclosing handlers), name-based call graph",
                   "atomicity of the pickle write and two-process interleavings are outside the effect contracts: covered "
                   "only through 'any content of the cache file is a miss' (corruption enumeration)")
-    res = B.run_script('harness.c17_run', [])
+    res = B.run_script('harness.c17_run', ['--deep'] if report.tier != 'quick' else [])
     B.bounded_obligations(report, 'C17', NAMES, res, functions=['parso.cache.load_module', 'parso.cache._load_from_file_system',
                                                                  'parso.cache.try_to_save_module', 'parso.cache.clear_inactive_cache'])
     report.assume(ASSUME_BOUNDED)
